@@ -465,6 +465,20 @@ _TIMEOUT_DURATION = re.compile(r"(\d+\.?\d*|\.\d+)[smhd]?")
 _WRAPPER_FLAGS_WITH_ARG = {
     "timeout": frozenset({"-s", "--signal", "-k", "--kill-after"}),
     "nice": frozenset({"-n", "--adjustment"}),
+    "strace": frozenset(
+        {
+            "-a", "-b", "-e", "-E", "-I", "-O", "-p", "-P", "-s", "-S", "-u", "-U", "-X",
+            "--columns", "--detach-on", "--trace", "--env", "--interruptible",
+            "--overhead", "--attach", "--trace-path", "--string-limit", "--summary-sort-by",
+            "--user", "--summary-columns", "--const-print-style",
+        }
+    ),
+    "ltrace": frozenset(
+        {
+            "-a", "-A", "-D", "-e", "-F", "-l", "-n", "-p", "-s", "-u", "-w", "-x",
+            "--align", "--config", "--debug", "--indent", "--library", "--where",
+        }
+    ),
 }
 
 
